@@ -12,6 +12,11 @@ import (
 
 // ExecLocal exec local
 func (c *Coins) ExecLocal(tx *types.Transaction, receipt *types.ReceiptData, index int) (dbSet *types.LocalDBSet, err error) {
+	// a failed transaction has no local effect (DriverBase.callLocal applies the same test, and
+	// ExecDelLocal goes through it: without this the receiver total is never undone on removal)
+	if receipt.GetTy() != types.ExecOk {
+		return &types.LocalDBSet{}, nil
+	}
 	dbSet, err = c.execLocal(tx, receipt, index)
 	if err != nil || dbSet == nil { // 不能向上层返回LocalDBSet为nil, 以及error
 		return &types.LocalDBSet{}, nil
